@@ -256,6 +256,11 @@ def cases(tier):
         for a, b, c in itertools.product(shl, repeat=3):
             for side in (0, 1):
                 out.append(dict(kind='api-share', route='shared', c1=c1, c2=c2, a=a, b=b, c=c, side=side))
+    # Python API: ONE set of Potential / EAMPotential objects serves a sequence of tabulations for different targets and grids
+    reuse = [[t, g] for t in REUSE_TARGETS for g in (0, 1)]
+    for depth in ((2,) if tier == 'quick' else (2, 3)):
+        for seq in itertools.product(reuse, repeat=depth):
+            out.append(dict(kind='api-reuse', seq=[list(x) for x in seq]))
     # the potable command line writing, one run after the other, into the SAME OUTPUT_FILE: every ordered sequence of (model, size)
     alpha = [[n, big] for n in NAMES for big in (0, 1)]
     for depth in ((2,) if tier == 'quick' else (2, 3)):
@@ -372,6 +377,59 @@ def run_hashseed_cli(case):
     return dict(outcome='ok:hashseed-cli' if not viol else 'violation', nontrivial=True, evals=1, violations=viol, states=['hashseed-cli'], transitions=1, traces=1)
 
 
+REUSE_TARGETS = ['LAMMPS', 'DLPOLY', 'GULP', 'setfl', 'setfl_fs', 'DL_POLY_EAM', 'DL_POLY_EAM_fs', 'eam_adp']
+REUSE_GRIDS = [(2.0, 8, 5.0, 4), (6.5, 12, 20.0, 7)]
+
+
+def reuse_objects():
+    import atsim.potentials as ap
+    from atsim.potentials import potentialforms as pf
+    import math
+    pots = [ap.Potential('A', 'A', pf.morse(1.2, 2.0, 0.3)), ap.Potential('B', 'A', ap.plus(pf.morse(1.8, 2.0, 0.6), pf.polynomial(1.0, -1.0, 0.25))),
+            ap.Potential('B', 'B', lambda r: 3.0 / (1.0 + r))]
+    dens = {'A': pf.exp_spline(0.7, -0.9, 0.01, 0, 0, 0, 0), 'B': pf.exp_spline(0.9, -1.0, 0.02, 0, 0, 0, 0.05)}
+    dfs = {'A': {'A': dens['A'], 'B': pf.exp_spline(0.2, -1.1, 0.02, 0, 0, 0, 0)}, 'B': {'A': pf.exp_spline(0.3, -1.1, 0.02, 0, 0, 0, 0), 'B': dens['B']}}
+    emb = {'A': pf.polynomial(0.1, -1.0, 0.01), 'B': lambda rho: -math.sqrt(rho + 1.0)}
+    eam = [ap.EAMPotential(x, z, m_, emb[x], dens[x], 2.5, 'fcc') for x, z, m_ in (('A', 1, 1.5), ('B', 2, 4.5))]
+    eamfs = [ap.EAMPotential(x, z, m_, emb[x], dfs[x], 2.5, 'fcc') for x, z, m_ in (('A', 1, 1.5), ('B', 2, 4.5))]
+    dip = [ap.Potential('A', 'B', pf.polynomial(0.5, -0.2, 0.01))]
+    quad = [ap.Potential('B', 'B', pf.morse(0.75, 1.3, 0.2))]
+    return dict(pots=pots, eam=eam, eamfs=eamfs, dip=dip, quad=quad)
+
+
+def reuse_write(objs, target, grid):
+    from atsim.potentials import pair_tabulation as PT, eam_tabulation as ET
+    cutoff, nr, crho, nrho = REUSE_GRIDS[grid]
+    fp = io.StringIO()
+    if target in ('LAMMPS', 'DLPOLY', 'GULP'):
+        cls = {'LAMMPS': PT.LAMMPS_PairTabulation, 'DLPOLY': PT.DLPoly_PairTabulation, 'GULP': PT.GULP_PairTabulation}[target]
+        cls(objs['pots'], cutoff, nr).write(fp)
+    elif target == 'eam_adp':
+        ET.ADP_EAMTabulation(objs['pots'], objs['eam'], objs['dip'], objs['quad'], cutoff, nr, crho, nrho).write(fp)
+    else:
+        cls = getattr(ET, {'setfl': 'SetFL_EAMTabulation', 'setfl_fs': 'SetFL_FS_EAMTabulation', 'DL_POLY_EAM': 'TABEAM_EAMTabulation', 'DL_POLY_EAM_fs': 'TABEAM_FinnisSinclair_EAMTabulation'}[target])
+        cls(objs['pots'], objs['eamfs' if target.endswith('_fs') else 'eam'], cutoff, nr, crho, nrho).write(fp)
+    return fp.getvalue()
+
+
+_REUSE_REF = {}
+
+
+def run_api_reuse(case):
+    objs = reuse_objects()
+    viol = []
+    for i, (t, g) in enumerate(case['seq']):
+        if (t, g) not in _REUSE_REF:
+            _REUSE_REF[(t, g)] = reuse_write(reuse_objects(), t, g)
+        got = reuse_write(objs, t, g)
+        if got != _REUSE_REF[(t, g)]:
+            viol.append(dict(sig='output-depends-on-earlier-use-of-the-objects', msg='the same Potential / EAMPotential objects tabulated as %r: step %d (%s, grid %r) differs from the table written from fresh objects (first difference at %d)'
+                             % (case['seq'], i, t, REUSE_GRIDS[g], first_diff(got, _REUSE_REF[(t, g)])), detail={}))
+            break
+    return dict(outcome='ok:api-reuse' if not viol else 'violation', nontrivial=True, evals=len(case['seq']), violations=viol, states=['api-reuse:%s' % ','.join('%s%d' % (t, g) for t, g in case['seq'][:-1])],
+                transitions=len(case['seq']), traces=1)
+
+
 _OUT_REF = {}
 
 
@@ -408,6 +466,8 @@ def run_outfile(case):
 def run_case(case):
     if case['kind'] == 'outfile':
         return run_outfile(case)
+    if case['kind'] == 'api-reuse':
+        return run_api_reuse(case)
     if case['kind'] == 'api-share':
         from . import C07
         res = C07.run_shared(case)
